@@ -309,6 +309,25 @@ func OpText(kind, path, from, value string, hasValue bool) string {
 	return sb.String()
 }
 
+// opFromText reads an operation spelled by OpText back into the reference's form.
+func opFromText(t string) ref.Op {
+	v := mustParse(t)
+	var op ref.Op
+	if x, _ := v.Get("op"); x != nil {
+		op.Kind = x.S
+	}
+	if x, _ := v.Get("path"); x != nil {
+		op.Path = x.S
+	}
+	if x, _ := v.Get("from"); x != nil {
+		op.From = x.S
+	}
+	if x, _ := v.Get("value"); x != nil {
+		op.Value, op.HasValue = x, true
+	}
+	return op
+}
+
 func PatchText(ops []string) string { return "[" + strings.Join(ops, ",") + "]" }
 
 func mustParse(s string) *jr.Value {
